@@ -237,6 +237,11 @@ def work(conf, res):
     n_fmmu = conf
     # the empty-sync-manager terminals one step less deep
     depth = work.depth - (1 if len(conf) > 2 else 0)
+    if work.depth > 5 and conf[0] >= 3:
+        # thorough tier: the 3- and 4-FMMU terminals one step less deep
+        # (depth 7 with concurrent steps, faults and group mappings takes
+        # more than an hour for them)
+        depth -= 1
     seen = set()
     frontier = [()]
     w, _ = build(n_fmmu, ())
